@@ -216,22 +216,61 @@ def _run_base(ctx):
     defs = local_defs(cn)
     diff_calls = [c for c in calls_in(cn, nested=False)
                   if isinstance(c.func, ast.Attribute) and c.func.attr == 'diff']
+    prod, prod_fid, roles = cn, cfid, {0: cparams[0], 1: cparams[1], 2: cparams[2] if len(cparams) > 2 else 'paths'}
     if not diff_calls:
-        raise AnalysisError('no .diff(...) call in changed_notebooks')
-    src = depends_on(cn, it, lambda n: n in diff_calls, defs)
+        # the diff may have been moved into a helper whose result the loop iterates: analyse the helper with the roles mapped through the call
+        hc = [c for c in ast.walk(it) if isinstance(c, ast.Call)] if not isinstance(it, ast.Name) else \
+            [v for v, k, st in defs.get(it.id, []) if isinstance(v, ast.Call)]
+        for c in hc:
+            for t in cg.resolve(c.func, cn):
+                if t[0] == 'func' and t[1] in repo.functions and t[1].startswith('nbdime.gitfiles:'):
+                    h = repo.functions[t[1]]
+                    hd = [x for x in calls_in(h, nested=False) if isinstance(x.func, ast.Attribute) and x.func.attr == 'diff']
+                    if hd:
+                        hp = [a.arg for a in h.args.args]
+                        m = {}
+                        for i, a in enumerate(c.args):
+                            for k, nm in roles.items():
+                                if isinstance(a, ast.Name) and a.id == nm and i < len(hp):
+                                    m[k] = hp[i]
+                        for kw in c.keywords:
+                            for k, nm in roles.items():
+                                if isinstance(kw.value, ast.Name) and kw.value.id == nm:
+                                    m[k] = kw.arg
+                        if len(m) == 3:
+                            prod, prod_fid, roles, diff_calls = h, t[1], m, hd
+    if not diff_calls:
+        raise AnalysisError('no .diff(...) call in changed_notebooks (or in a helper whose result it iterates)')
+    pdefs = local_defs(prod)
+    if prod is cn:
+        src = depends_on(cn, it, lambda n: n in diff_calls, defs)
+        # every definition of the iterated name must be git's diff result
+        if isinstance(it, ast.Name):
+            others = [v for v, k, st in defs.get(it.id, []) if k == 'assign' and not any(x in diff_calls for x in ast.walk(v))]
+            if others:
+                src = None
+    else:
+        bad_rets = [r for r in walk_no_nested(prod) if isinstance(r, ast.Return) and
+                    (r.value is None or depends_on(prod, r.value, lambda n: n in diff_calls, pdefs) is None)]
+        src = None if bad_rets else True
+        for r in bad_rets:
+            ctx.inst('R17.3', prod_fid, repo.norm(r), False,
+                     'this path hands back something other than git\'s diff result: under the guarding condition no notebook is examined although git reports changes '
+                     '(a condition on the index/HEAD state says nothing about the two revisions compared)', r)
     ctx.inst('R17.3', cfid, 'for %s in %s' % (ast.unparse(loop.target), ast.unparse(it)), src is not None,
              'the loop iterates the result of <tree|index>.diff(...)' if src is not None else
-             'the loop does not iterate git\'s diff result', loop)
-    p_paths = cparams[2] if len(cparams) > 2 else 'paths'
+             'the loop does not iterate git\'s diff result on every path', loop)
+    p_paths = roles[2]
     for c in diff_calls:
         ok = len(c.args) >= 2 and dotted(c.args[1]) == p_paths and not c.keywords or \
             any(k.arg == 'paths' and dotted(k.value) == p_paths for k in c.keywords)
-        recv_ok = depends_on(cn, c.func.value, lambda n: isinstance(n, ast.Name) and n.id == cparams[0], defs) is not None \
-            or depends_on(cn, c.func.value, lambda n: isinstance(n, ast.Attribute) and n.attr == 'index', defs) is not None
-        other_ok = c.args and depends_on(cn, c.args[0], lambda n: isinstance(n, ast.Name) and n.id == cparams[1], defs) is not None
-        ctx.inst('R17.3', cfid, repo.norm(c), bool(ok and recv_ok and other_ok),
+        recv_ok = depends_on(prod, c.func.value, lambda n: isinstance(n, ast.Name) and n.id == roles[0], pdefs) is not None \
+            or depends_on(prod, c.func.value, lambda n: isinstance(n, ast.Attribute) and n.attr == 'index', pdefs) is not None
+        other_ok = c.args and depends_on(prod, c.args[0], lambda n: isinstance(n, ast.Name) and n.id == roles[1], pdefs) is not None
+        ctx.inst('R17.3', prod_fid, repo.norm(c), bool(ok and recv_ok and other_ok),
                  'base side diffed against remote side with the path filter forwarded' if ok and recv_ok and other_ok else
                  ('path filter not forwarded to git' if not ok else 'diff is not base-vs-remote'), c)
+    p_paths = cparams[2] if len(cparams) > 2 else 'paths'
     # the local that receives the second component of get_repo(...): the sub-directory components split off while walking up
     popped_names = set()
     for a in walk_no_nested(cn):
